@@ -1,4 +1,6 @@
 import TcheranVerif.Model.Fen
+import TcheranVerif.Proofs.FenRoundTrip
+import TcheranVerif.Model.Rules
 /-!
 # C06 — the FEN reader never crashes and rejects malformed rank widths
 
@@ -9,8 +11,17 @@ Over the model of the `nom` grammar (`Model/Fen.lean`, `List Char` in, `ok | err
   the only `panic` of the reader (`assert_eq!(all_pieces.len(), 64)`) is unreachable, and the ply
   arithmetic saturates;
 * `plies_in_range` — the ply counter computed from any move number fits `u32`.
-Losslessness (write ∘ read, read ∘ write on legal positions, key and accumulators included) is
-decided by the `fenrt` correspondence/oracle stream; its string-level proof is not mechanised: partial.
+* **`parse_write`** — losslessness at string level: for **every** position whose key and accumulators are
+  in step with its board (C03 / C15: every position of every game), whose clock fits `u32` and whose ply
+  counter has the parity of the side to move (every position read from a FEN or reached by moves from one:
+  `parity_apply`), the reader applied to the characters the writer produces gives back that very position —
+  placement in all three views, side, rights, e.p. target, both clocks, key, accumulators (the history stack,
+  which a FEN does not carry, is empty). `parse_write_fields` is the same on the bare fields, for every
+  mailbox (legal or not). **`write_parse_canonical`** — reading a canonical FEN and writing the result gives
+  the text again. `built_position_in_step` — every position the reader builds meets the hypothesis.
+  Proof: `Proofs/FenRoundTrip.lean` (run-length decoding inverts encoding by induction on the rank with
+  the pending-empties counter; `Nat.toDigits` / `Nat.ofDigitChars`).
+The tie of the model's grammar to the `nom` parser is the `fen` / `fenrt` correspondence stream.
 -/
 namespace Tcheran.Props.C06
 open Tcheran Tcheran.Fen
@@ -115,6 +126,53 @@ theorem plies_of_ordinary (fm : Nat) (h1 : 1 ≤ fm) (h2 : fm ≤ 1000000) :
   unfold pliesFromFullmove u32Max
   constructor <;> simp <;> omega
 
+
+open Board Game in
+/-- **parse_write** -/
+theorem parse_write (c : Cfg) (g : Game) (hs : Sync c g) (hh : g.halfmove < 4294967296) (hp : g.plies < 4000000000)
+    (hpar : g.plies % 2 = if g.player = .black then 1 else 0) :
+    parse c (write g) = .ok { g with history := [] } :=
+  Fen.parse_write c g hs hh hp hpar
+
+/-- the same on the bare fields: any mailbox, legal or not -/
+theorem parse_write_fields (sq : Vector (Option Piece) 64) (p : Player) (r : Rights) (ep : Option Sq)
+    (halfmove plies : Nat) (hh : halfmove < 4294967296) (hp : plies < 4000000000)
+    (hpar : plies % 2 = if p = .black then 1 else 0) :
+    parseFields (writeFields sq p r ep halfmove plies).toList =
+      .ok { squares := sq, player := p, rights := r, ep := ep, halfmove := halfmove, plies := plies } :=
+  Fen.parse_write_fields sq p r ep halfmove plies hh hp hpar
+
+open Board Game in
+/-- **write_parse_canonical** -/
+theorem write_parse_canonical (c : Cfg) (g : Game) (hs : Sync c g) (hh : g.halfmove < 4294967296)
+    (hp : g.plies < 4000000000) (hpar : g.plies % 2 = if g.player = .black then 1 else 0) :
+    ∃ g', parse c (write g) = .ok g' ∧ write g' = write g :=
+  Fen.write_parse_canonical c g hs hh hp hpar
+
+open Board Game in
+/-- every position the reader builds has its views, key and accumulators in step (non-vacuity of `Sync`) -/
+theorem built_position_in_step (c : Cfg) (sq : Vector (Option Piece) 64) (p : Player) (r : Rights) (ep : Option Sq)
+    (hm pl : Nat) : Sync c (Game.fromState c (Board.ofSquares sq) p r ep hm pl) :=
+  by
+    refine ⟨consistent_ofSquares sq, ?_, ?_⟩
+    · exact hash_eq_fullHash c (Board.ofSquares sq) (consistent_ofSquares sq) p r ep
+    · simp only [Game.fromState]
+
+/-- the parity hypothesis holds for what the reader computes from a move number and is kept by every move -/
+theorem parity_read (fm : Nat) (p : Player) (h1 : 1 ≤ fm) (h2 : fm ≤ 1000000) :
+    pliesFromFullmove fm p % 2 = if p = .black then 1 else 0 := by
+  have := plies_of_ordinary fm h1 h2
+  cases p
+  · rw [this.1]; simp
+  · rw [this.2]; simp
+
+theorem parity_apply (pos : Rules.Pos) (m : Move) (h : pos.plies % 2 = if pos.player = Player.black then 1 else 0) :
+    (Rules.apply pos m).plies % 2 = if (Rules.apply pos m).player = Player.black then 1 else 0 := by
+  have e1 : (Rules.apply pos m).plies = pos.plies + 1 := rfl
+  have e2 : (Rules.apply pos m).player = pos.player.other := rfl
+  rw [e1, e2]
+  cases hp : pos.player <;> rw [hp] at h <;> simp [Player.other] at h ⊢ <;> omega
+
 /-- non-vacuity: the start position is accepted, a nine-wide rank is rejected (not a crash) -/
 example : (match parseFields "rnbqkbnr/pppppppp/8/8/8/8/PPPPPPPP/RNBQKBNR w KQkq - 0 1".toList with
     | .ok f => f.plies == 0 && f.halfmove == 0 | _ => false) = true := by decide
@@ -129,3 +187,9 @@ end Tcheran.Props.C06
 #print axioms Tcheran.Props.C06.parse_never_panics
 #print axioms Tcheran.Props.C06.plies_in_range
 #print axioms Tcheran.Props.C06.plies_of_ordinary
+#print axioms Tcheran.Props.C06.parse_write
+#print axioms Tcheran.Props.C06.parse_write_fields
+#print axioms Tcheran.Props.C06.write_parse_canonical
+#print axioms Tcheran.Props.C06.built_position_in_step
+#print axioms Tcheran.Props.C06.parity_read
+#print axioms Tcheran.Props.C06.parity_apply
